@@ -5,6 +5,7 @@ import (
 	"context"
 	"encoding/json"
 	"fmt"
+	"grol.io/grol/object"
 	"os"
 	"sort"
 	"strings"
@@ -248,7 +249,18 @@ func (p c14) check(c *fw.Ctx, build []string, maxLen int) (kind, detail string, 
 		for _, line := range strings.Split(strings.TrimSuffix(file, "\n"), "\n") {
 			ss.eval(line, 2*time.Second)
 		}
+		// the environment top level functions are defined in: a function value with another one is a closure over the
+		// variables of a call that has returned, which text cannot carry (open finding, matched by its own signature)
+		orig.eval("func zz_c14_top() {}", time.Second)
+		var topEnv *object.Environment
+		if f, ok := object.Value(orig.evalObj("zz_c14_top")).(object.Function); ok {
+			topEnv = f.Env
+		}
 		for _, name := range allFn {
+			captured := false
+			if f, ok := object.Value(orig.evalObj(name)).(object.Function); ok && topEnv != nil && f.Env != topEnv {
+				captured = true
+			}
 			for arity := 0; arity <= 4; arity++ {
 				for k := 0; k < 3; k++ {
 					call := fmt.Sprintf("%s(%s)", name, c14Args(arity, k))
@@ -258,7 +270,11 @@ func (p c14) check(c *fw.Ctx, build []string, maxLen int) (kind, detail string, 
 						continue
 					}
 					if !sameOutcome(x, y) {
-						return "function-differs", fmt.Sprintf("%s: original %s, reloaded %s", call, outStr(x), outStr(y)), n, file
+						kind := "function-differs"
+						if captured {
+							kind = "function-differs:captured-environment"
+						}
+						return kind, fmt.Sprintf("%s: original %s, reloaded %s", call, outStr(x), outStr(y)), n, file
 					}
 				}
 			}
@@ -363,6 +379,16 @@ func (p c14) RunBatch(c *fw.Ctx) {
 		if i == 0 {
 			c.Sample(c14Case{Build: build})
 		}
+	}
+	// the globals the shipped example and test programs leave behind (real function shapes: nested lambdas, self
+	// recursion, maps of functions, comments inside bodies)
+	for fi, src := range corpusPrograms() {
+		if fi%c.NBatches != c.Batch {
+			continue
+		}
+		c.Begin(c14Case{Build: []string{src}})
+		p.one(c, []string{src})
+		c.Count("corpus_environments", 1)
 	}
 }
 
